@@ -87,6 +87,46 @@ def classify_failure(pvl, reader, doc, seps, plain, outcome):
              {"plain_text": text_plain[:800]})]
 
 
+# Hand-written string contents around the edges of the folding rule (what
+# the random shapes put in the middle of a string stands here at its ends).
+# Expected values: normalise.fold for the readers that fold, verbatim for PVL.
+STRING_EDGES = (
+    "abc-\n   ", "abc-\n", "abc -\n\t", "abc-\n   \n", "-\n   def", "-\n",
+    "abc-\n   -\n  def", "abc- \n def", "abc-\n\n def", " \n abc", "abc \n ",
+    "\n", " - ", "-", "a -\n b", "a-\nb-\nc-\n", "one two-\n      ",
+    "abc-\t\n def", "abc--\n def", "-\n-\n", "abc-\n  def  ", "  abc-\n  def",
+)
+
+
+def string_edges(rec, pvl):
+    """Every STRING_EDGES content between both quote kinds, alone, followed
+    by another statement, and as a member of a sequence; x 5 readers."""
+    for reader in gt.READERS:
+        for content in STRING_EDGES:
+            exp = gt.fold(content) if reader in gt.ODL_FAMILY_READ else content
+            for q in ('"', "'"):
+                lit = q + content + q
+                for shape, text, tree in (
+                        ("alone", f"a = {lit}\nEND\n", [("a", exp)]),
+                        ("then-statement", f"a = {lit}\nb = 1\nEND\n",
+                         [("a", exp), ("b", 1)]),
+                        ("no-end", f"a = {lit}", [("a", exp)]),
+                        ("in-sequence", f"s = (\"x\", {lit})\nEND\n",
+                         [("s", ["x", exp])])):
+                    st, res = load(pvl, reader, text)
+                    rec.count("string_edge_loads")
+                    rec.case((reader, "edge", content, q, shape), True)
+                    if st == "ok" and gt.same_tree(tree, res) is None:
+                        rec.count(f"agree[{reader}]")
+                        continue
+                    msg = f"{st}: {res!r}"[:300]
+                    rec.violation(CHECK, reader, "string-edge-misread",
+                                  {"content": content, "shape": shape,
+                                   "outcome": st if st != "ok" else "loaded-differently"},
+                                  {"reader": reader, "text": text, "expected": repr(tree)},
+                                  msg)
+
+
 _LONG_LIVED = {}
 
 
@@ -156,6 +196,8 @@ def case(rec, pvl, reader, key, reuse=False):
 def shard(i, n, tier, seed, rec, hb):
     pvl = common.import_pvl()
     per = 2400 if tier == "quick" else 150000
+    if i == 0:
+        string_edges(rec, pvl)
     for reader in common.rotated(gt.READERS, i):
         for j in range(i, per, n):
             hb.beat()
@@ -170,7 +212,7 @@ def finish_kwargs(rec, tier):
         reader, cls, ctx = k[len("matrix["):-1].split("][")
         matrix.setdefault(reader, {}).setdefault(cls, {})[ctx] = v
     req = [f"agree[{r}]" for r in gt.READERS]
-    req += ["loads_through_a_long_lived_parser",
+    req += ["loads_through_a_long_lived_parser", "string_edge_loads",
             "preceded_by_other_configuration[decimal]",
             "preceded_by_other_configuration[other-dialect]"]
     return dict(extra_cov={"matrix_cells_hit": len(cells), "matrix": matrix},
